@@ -187,6 +187,19 @@ theorem untouched_elsewhere {t t' : Tree} {x : Transfer} {src : Loc} (h : copySo
             exact hq (List.mem_map.mpr ⟨f, hf, hc.symm⟩)
           refine ⟨s3 q hne, fun ha => s4 q fun f hf => ⟨hne f hf, ha _ (List.mem_map.mpr ⟨f, hf, rfl⟩)⟩⟩
 
+/-- **a retried file copy is invisible**: when a transient error makes `retry_transient_errors` copy a file (or a part's file)
+again, writing the same bytes to the same destination a second time leaves the tree exactly as the first complete write did -/
+theorem retried_write_is_invisible {t t₁ t₂ : Tree} {p : Path} {c : List Nat} (h₁ : writeFile t p c = .ok t₁)
+    (h₂ : writeFile t₁ p c = .ok t₂) : ∀ q, t₂.get q = t₁.get q := by
+  intro q
+  obtain ⟨a1, _, _, _, _⟩ := writeFile_ok h₁
+  obtain ⟨b1, b2, b3, _, _⟩ := writeFile_ok h₂
+  by_cases hqp : q = p
+  · rw [hqp, a1, b1]
+  · by_cases ha : isAncestor q p = true
+    · exact b3 q hqp (writeFile_ancestors h₁ q ha)
+    · exact b2 q hqp (by simpa using ha)
+
 /-- nothing is ever removed and no path changes between file and directory — for one source, one transfer, any list of transfers -/
 theorem copySource_keeps_kinds {t t' : Tree} {x : Transfer} {src : Loc} (h : copySource t x src = .ok t') : KeepsKinds t t' := by
   unfold copySource at h
